@@ -3,6 +3,7 @@ package gx
 import (
 	"encoding/json"
 	"fmt"
+	"os"
 
 	"github.com/opsidian/parsley/parsley"
 
@@ -17,20 +18,31 @@ import (
 // cache, real parsers against the reference table and the independent validator.
 
 func c01Specs(tier string) []spaceSpec {
+	if os.Getenv("VERIF_SPACES") != "" {
+		return specsFromEnv(nil)
+	}
 	if tier == "thorough" {
 		return []spaceSpec{
-			{&gram.Space{Name: "full-1nt", Alpha: gram.Full, NNT: 1, Min: 1, Max: 5}, 4, ab},
-			{&gram.Space{Name: "core-1nt", Alpha: gram.Core, NNT: 1, Min: 6, Max: 7}, 4, ab},
-			{&gram.Space{Name: "full-2nt", Alpha: gram.Full, NNT: 2, Min: 2, Max: 6}, 3, ab},
-			{&gram.Space{Name: "core-2nt", Alpha: gram.Core, NNT: 2, Min: 7, Max: 7}, 3, ab},
+			{sp: &gram.Space{Name: "full-1nt", Alpha: gram.Full, NNT: 1, Min: 1, Max: 5}, maxLen: 4, alpha: ab},
+			{sp: &gram.Space{Name: "core-1nt", Alpha: gram.Core, NNT: 1, Min: 6, Max: 7}, maxLen: 4, alpha: ab},
+			{sp: &gram.Space{Name: "full-2nt", Alpha: gram.Full, NNT: 2, Min: 2, Max: 6}, maxLen: 3, alpha: ab},
+			{sp: &gram.Space{Name: "core-2nt", Alpha: gram.Core, NNT: 2, Min: 7, Max: 7}, maxLen: 3, alpha: ab},
+			{sp: &gram.Space{Name: "core-2nt-mutual", Alpha: gram.Core, NNT: 2, Min: 8, Max: 8}, maxLen: 3, alpha: ab, mutualOnly: true},
+			{sp: &gram.Space{Name: "core1-2nt-mutual", Alpha: gram.Core1, NNT: 2, Min: 2, Max: 9}, maxLen: 3, alpha: []byte{'a'}, mutualOnly: true},
 		}
 	}
 	return []spaceSpec{
-		{&gram.Space{Name: "full-1nt", Alpha: gram.Full, NNT: 1, Min: 1, Max: 4}, 4, ab},
-		{&gram.Space{Name: "core-1nt", Alpha: gram.Core, NNT: 1, Min: 5, Max: 6}, 4, ab},
-		{&gram.Space{Name: "full-2nt", Alpha: gram.Full, NNT: 2, Min: 2, Max: 4}, 4, ab},
+		{sp: &gram.Space{Name: "full-1nt", Alpha: gram.Full, NNT: 1, Min: 1, Max: 4}, maxLen: 4, alpha: ab},
+		{sp: &gram.Space{Name: "core-1nt", Alpha: gram.Core, NNT: 1, Min: 5, Max: 6}, maxLen: 4, alpha: ab},
+		{sp: &gram.Space{Name: "full-2nt", Alpha: gram.Full, NNT: 2, Min: 2, Max: 4}, maxLen: 4, alpha: ab},
+		{sp: &gram.Space{Name: "core1-2nt-mutual", Alpha: gram.Core1, NNT: 2, Min: 2, Max: 7}, maxLen: 2, alpha: []byte{'a'}, mutualOnly: true},
 	}
 }
+
+// c01Budget is the per-parse work meter (calls and results) of C01. Finitely ambiguous cases
+// within the bounds need a few hundred calls; infinitely ambiguous ones grow as a power tower
+// and are cut here (counted as undecided, never judged).
+const c01Budget = 20000
 
 // c01Compare judges one parse of nonterminal nt at start s against the table.
 func c01Compare(res *explore.Result, t *ref.Table, b *impl.Built, nt, s int, o impl.Outcome, phase string, c Case) (violated bool) {
@@ -44,7 +56,7 @@ func c01Compare(res *explore.Result, t *ref.Table, b *impl.Built, nt, s int, o i
 		res.Violate("panic", where+": library panic: "+o.Panic, c)
 		return true
 	case o.Budget != "":
-		res.Undecided(fmt.Sprintf("work meter (%d) tripped on some finitely-but-hugely ambiguous cases; they are not judged", budgetCalls))
+		res.Undecided(fmt.Sprintf("work meter (%d) tripped on some hugely ambiguous cases; they are not judged", c01Budget))
 		if len(res.Notes) < 8 {
 			res.Notes = append(res.Notes, "meter tripped: "+where)
 		}
@@ -137,9 +149,23 @@ func c01Grammar(res *explore.Result, g *gram.Grammar, inputs [][]byte, verbose b
 		res.Add("grammars_left_recursive", 1)
 	}
 	b := impl.Build(g, impl.Options{})
-	b.Mon.BudgetCalls, b.Mon.BudgetRes = budgetCalls, budgetResults
+	b.Mon.BudgetCalls, b.Mon.BudgetRes = c01Budget, c01Budget
 	gs := g.String()
+	trippedAt, lastLen := -1, 0
+	undecidedBefore := res.Counters["undecided"]
 	for _, w := range inputs {
+		if trippedAt >= 0 && len(w) > trippedAt {
+			res.Add("cases_skipped_after_meter_tripped", int64(len(w)+1))
+			continue
+		}
+		if trippedAt < 0 && res.Counters["undecided"] > undecidedBefore {
+			trippedAt = lastLen // the meter tripped on the previous input: skip strictly longer ones
+			if len(w) > trippedAt {
+				res.Add("cases_skipped_after_meter_tripped", int64(len(w)+1))
+				continue
+			}
+		}
+		lastLen = len(w)
 		t := ref.Compute(g, an, w, true)
 		c := Case{Grammar: gs, Input: string(w)}
 		if anyOver(t) && len(w) > 2 {
